@@ -654,7 +654,11 @@ SendSubrect(rfbClientPtr cl,
              + (cl->scaledScreen->paddedWidthInBytes * y)
              + (x * (cl->scaledScreen->bitsPerPixel / 8)));
 
-    if (cl->turboSubsampLevel == TJ_GRAYSCALE && cl->turboQualityLevel != -1)
+    /* Grayscale JPEG needs no palette analysis - but only where JPEG can be used at all:
+       with an 8-bit frame buffer SendJpegRect() falls back to SendFullColorRect(), which
+       sends cl->beforeEncBuf, and that is filled by the translation below. */
+    if (cl->turboSubsampLevel == TJ_GRAYSCALE && cl->turboQualityLevel != -1 &&
+        cl->screen->serverFormat.bitsPerPixel != 8)
         return SendJpegRect(cl, x, y, w, h, cl->turboQualityLevel);
 
     palette.maxColors = w * h / tightConf[cl->tightCompressLevel].idxMaxColorsDivisor;
